@@ -111,7 +111,9 @@ def slice_with_bool_dask_array(x, index):
     new_chunks = tuple(
         tuple(np.nan for _ in range(len(c))) if dim in dsk_ind else c for dim, c in enumerate(out.chunks)
     )
-    result = ChunksOverride(out.expr, new_chunks)
+    # new_chunks is a literal derived from out's advertised layout: pin that layout
+    # so a later rewrite of out onto other chunks cannot desynchronize them
+    result = ChunksOverride(out.freeze_chunks().expr, new_chunks)
     return new_collection(result), tuple(out_index)
 
 
